@@ -5,6 +5,8 @@ type nat =
 | O
 | S of nat
 
+val option_map : ('a1 -> 'a2) -> 'a1 option -> 'a2 option
+
 val fst : ('a1 * 'a2) -> 'a1
 
 val snd : ('a1 * 'a2) -> 'a2
@@ -21,6 +23,8 @@ type comparison =
 val compOpp : comparison -> comparison
 
 val add : nat -> nat -> nat
+
+val sub : nat -> nat -> nat
 
 type byte =
 | X00
@@ -329,6 +333,8 @@ module Coq_Pos :
 
   val pred_double : positive -> positive
 
+  val pred_N : positive -> n
+
   type mask = Pos.mask =
   | IsNul
   | IsPos of positive
@@ -356,9 +362,23 @@ module Coq_Pos :
 
   val eqb : positive -> positive -> bool
 
+  val coq_Nsucc_double : n -> n
+
+  val coq_Ndouble : n -> n
+
+  val coq_lor : positive -> positive -> positive
+
+  val coq_land : positive -> positive -> n
+
+  val ldiff : positive -> positive -> n
+
+  val coq_lxor : positive -> positive -> n
+
   val iter_op : ('a1 -> 'a1 -> 'a1) -> positive -> 'a1 -> 'a1
 
   val to_nat : positive -> nat
+
+  val of_succ_nat : nat -> positive
  end
 
 module N :
@@ -366,6 +386,8 @@ module N :
   val succ_double : n -> n
 
   val double : n -> n
+
+  val succ_pos : n -> positive
 
   val add : n -> n -> n
 
@@ -388,6 +410,14 @@ module N :
   val div_eucl : n -> n -> n * n
 
   val modulo : n -> n -> n
+
+  val coq_lor : n -> n -> n
+
+  val coq_land : n -> n -> n
+
+  val ldiff : n -> n -> n
+
+  val coq_lxor : n -> n -> n
  end
 
 module Z :
@@ -426,6 +456,8 @@ module Z :
 
   val to_N : z -> n
 
+  val of_nat : nat -> z
+
   val of_N : n -> z
 
   val pos_div_eucl : positive -> z -> z * z
@@ -435,7 +467,15 @@ module Z :
   val div : z -> z -> z
 
   val modulo : z -> z -> z
+
+  val coq_lor : z -> z -> z
+
+  val coq_land : z -> z -> z
+
+  val coq_lxor : z -> z -> z
  end
+
+val nth_error : 'a1 list -> nat -> 'a1 option
 
 val rev : 'a1 list -> 'a1 list
 
@@ -492,7 +532,17 @@ val bytes_eqb : bytes -> bytes -> bool
 
 val is_upper : byte -> bool
 
+val is_lower : byte -> bool
+
+val is_alpha : byte -> bool
+
 val is_digit : byte -> bool
+
+val is_ascii : byte -> bool
+
+val is_vchar : byte -> bool
+
+val is_ascii_ws : byte -> bool
 
 val is_ows : byte -> bool
 
@@ -509,6 +559,12 @@ val trim_end : (byte -> bool) -> bytes -> bytes
 val trim_both : (byte -> bool) -> bytes -> bytes
 
 val split_on : byte -> bytes -> bytes list
+
+val find_index : ('a1 -> bool) -> 'a1 list -> nat option
+
+val is_prefix : bytes -> bytes -> bool
+
+val strip_prefix : bytes -> bytes -> bytes option
 
 val sECS_PER_DAY : z
 
@@ -741,3 +797,217 @@ val store_step : (bytes * bytes) list -> hop -> (bytes * bytes) list
 val spec_cl_rev : hop list -> n option
 
 val spec_cl : hop list -> n option
+
+val b0 : z -> z
+
+val rs : z -> z
+
+val word_of : z list -> z
+
+val uni : nat -> z -> z
+
+val p256 : nat -> z
+
+val offsetnz : nat -> z -> nat
+
+val uri_hit : nat -> z -> z
+
+val path_hit : nat -> z -> z
+
+type perr =
+| EVersion
+| EStatus
+| EHeader
+| EEof
+
+type fault =
+| FOob
+| FStr
+| FFuel
+
+type 'a res =
+| Ok of 'a
+| Err of perr
+| Fault of fault
+
+val bind : 'a1 res -> ('a1 -> 'a2 res) -> 'a2 res
+
+val str_unchecked : bytes -> bytes res
+
+val zs : bytes -> z list
+
+val uri_tail : bytes -> nat
+
+val match_uri_vectored : bytes -> nat
+
+val is_q_or_sp : byte -> bool
+
+val path_tail : bytes -> nat
+
+val match_path_vectored : bytes -> nat
+
+type method0 =
+| MGet
+| MPost
+| MHead
+| MPut
+| MPatch
+| MDelete
+| MOptions
+| MTrace
+| MCustom of bytes
+
+val method_str : method0 -> bytes
+
+type uri = { full : bytes; p_start : nat; p_end : nat }
+
+type request = { q_meth : method0; q_target : uri; q_version : n;
+                 q_hdrs : headers; q_offset : nat }
+
+val parse_method : bytes -> (method0 * bytes) res
+
+val uRI_VALID : bytes
+
+val is_valid_uri_byte : byte -> bool
+
+type scan2 =
+| S2Err
+| S2Path of nat
+| S2End of nat
+
+val step2 : bool -> bytes -> nat -> scan2
+
+val finish_uri : bytes -> nat -> nat -> nat -> (uri * bytes) res
+
+val is_crlf_byte : byte -> bool
+
+val parse_uri : bytes -> (uri * bytes) res
+
+val parse_version : bytes -> (n * bytes) res
+
+val fIELD_VALID : bytes
+
+val is_valid_header_field_byte : byte -> bool
+
+val parse_header_line : bytes -> (bytes * bytes) res
+
+val parse_headers_f : nat -> headers -> bytes -> (headers * bytes) res
+
+val parse_headers : bytes -> (headers * bytes) res
+
+val offset_of : bytes -> bytes -> nat res
+
+val parse_request : bytes -> request res
+
+type response = { r_version : n; r_code : n; r_reason : bytes;
+                  r_hdrs : headers; r_offset : nat }
+
+val digit_at : bytes -> nat -> n res
+
+val is_reason_byte : byte -> bool
+
+val reason_scan : bytes -> nat -> nat res
+
+val parse_response_status : bytes -> ((n * bytes) * bytes) res
+
+val parse_response : bytes -> response res
+
+val slice : bytes -> nat -> nat -> bytes res
+
+val find_sub : bytes -> bytes -> nat option
+
+val sCHEME_SEP : bytes
+
+val uri_scheme : uri -> bytes option res
+
+val uri_path : uri -> bytes res
+
+val uri_query : uri -> bytes option res
+
+val uri_authority : uri -> bytes option res
+
+val uri_path_and_query : uri -> bytes res
+
+val lF : byte
+
+val sP : byte
+
+val cRLF : bytes
+
+val in_set : bytes -> byte -> bool
+
+val is_tchar : byte -> bool
+
+val is_unreserved : byte -> bool
+
+val is_subdelim : byte -> bool
+
+val is_pchar : byte -> bool
+
+val is_path_char : byte -> bool
+
+val is_query_char : byte -> bool
+
+val is_authority_char : byte -> bool
+
+val is_scheme_char : byte -> bool
+
+val is_field_vchar : byte -> bool
+
+type target =
+| Origin of bytes * bytes option
+| Absolute of bytes * bytes * bytes * bytes option
+| AuthorityForm of bytes
+| Asterisk
+
+type field = { f_name : bytes; f_ows : bytes; f_value : bytes }
+
+type head = { h_method : bytes; h_target : target; h_minor : bool;
+              h_fields : field list }
+
+val render_query : bytes option -> bytes
+
+val render_target : target -> bytes
+
+val render_field : field -> bytes
+
+val render : head -> bytes
+
+val nonempty : bytes -> bool
+
+val opt_all : (byte -> bool) -> bytes option -> bool
+
+val rfc_target : target -> bool
+
+val rfc_field : field -> bool
+
+val rfc_head : head -> bool
+
+val target_path : target -> bytes
+
+val target_query : target -> bytes option
+
+val headers_of : (bytes * bytes) list -> headers
+
+val field_pairs : head -> (bytes * bytes) list
+
+val cl_values : (bytes * bytes) list -> n option list
+
+val cl_consistent : (bytes * bytes) list -> bool
+
+val split_at : byte -> bytes -> (bytes * bytes) option
+
+val take_line : bytes -> (bytes * bytes) option
+
+type sfield = { s_name : bytes; s_raw : bytes }
+
+type shead = { s_method : bytes; s_target : bytes; s_minor : bool;
+               s_fields : sfield list }
+
+val strict_fields : nat -> bytes -> (sfield list * bytes) option
+
+val strict_head : bytes -> (shead * nat) option
+
+val field_value : bytes -> bytes
+
+val sfield_pairs : sfield list -> (bytes * bytes) list
